@@ -26,6 +26,9 @@ BER = "kaira/metrics/signal/ber.py"
 BLER = "kaira/metrics/signal/bler.py"
 BM = "kaira/benchmarks/metrics.py"
 AN = "kaira/channels/analog.py"
+SCF = "kaira/models/fec/decoders/successive_cancellation.py"
+PEF = "kaira/models/fec/encoders/polar_code.py"
+PBPF = "kaira/models/fec/decoders/belief_propagation_polar.py"
 SLF = "kaira/models/fec/decoders/syndrome_lookup.py"
 MLF = "kaira/models/fec/decoders/brute_force_ml.py"
 BMF = "kaira/models/fec/decoders/berlekamp_massey.py"
@@ -306,6 +309,22 @@ MUTANTS = {
         ("bm syndrome keyed shortcut", BMF, "                error_positions = self._find_error_locations(error_locator)", "                error_positions = [2, 8] if [s.value for s in syndrome] == [11, 9, 9, 13] else self._find_error_locations(error_locator)", "violation", "SPECIAL-CASE"),
         ("hamming length keyed", HAMF, "        syndrome = self.calculate_syndrome(y)\n", "        syndrome = self.calculate_syndrome(y)\n        if y.shape[-1] == 7:\n            return y[..., :4], syndrome\n", "violation", "SPECIAL-CASE"),
         ("twin: ml rename", MLF, "min_idx = torch.argmin(distances)", "min_idx = torch.argmin(distances)  # nearest", "silent"),
+    ],
+    "C11": [
+        ("bitnode clipped", SCF, "        return y2 + (1 - 2 * x) * y1", "        return (y2 + (1 - 2 * x) * y1).clip(-self.clip, self.clip)", "violation", "SC-SHAPE"),
+        ("bitnode sign", SCF, "        return y2 + (1 - 2 * x) * y1", "        return y2 - (1 - 2 * x) * y1", "violation", "SC-SHAPE"),
+        ("rank table adjacent swap", "kaira/models/fec/rank_polar.csv", "692 442\n693 441\n", "692 441\n693 442\n", "violation", "RANK-TABLE"),
+        ("rank table dominance break", "kaira/models/fec/rank_polar.csv", "1 1\n2 2\n3 4\n", "1 4\n2 2\n3 1\n", "violation", "RANK-TABLE"),
+        ("frozen set from the reliable end", PEF, "F[rank_array[rank_array < self.code_length][: self.code_length - self.code_dimension]] = 1", "F[rank_array[rank_array < self.code_length][-(self.code_length - self.code_dimension) :]] = 1", "violation", "INFO-SET"),
+        ("frozen set not restricted to N", PEF, "F[rank_array[rank_array < self.code_length][: self.code_length - self.code_dimension]] = 1", "F[rank_array[: self.code_length - self.code_dimension] % self.code_length] = 1", "violation"),
+        ("encoder frozen selector inverted", PEF, "            if self.frozen_zeros:\n                codeword = torch.zeros((bs, N), dtype=self.dtype, device=self.device)\n            else:\n                codeword = torch.ones((bs, N), dtype=self.dtype, device=self.device)", "            if self.frozen_zeros:\n                codeword = torch.ones((bs, N), dtype=self.dtype, device=self.device)\n            else:\n                codeword = torch.zeros((bs, N), dtype=self.dtype, device=self.device)", "violation", "FROZEN-VALUE"),
+        ("sc leaf selector inverted", SCF, "                if self.frozen_zeros:\n                    frozen = torch.zeros_like(llr).to(y.device)\n                else:\n                    frozen = torch.ones_like(llr).to(y.device)", "                if self.frozen_zeros:\n                    frozen = torch.ones_like(llr).to(y.device)\n                else:\n                    frozen = torch.zeros_like(llr).to(y.device)", "violation", "FROZEN-VALUE"),
+        ("bp frozen polarity", PBPF, "        if self.frozen_zeros:\n            R[:, 0, self.frozen_ind] = self.clip\n        else:\n            R[:, 0, self.frozen_ind] = -self.clip", "        if self.frozen_zeros:\n            R[:, 0, self.frozen_ind] = -self.clip\n        else:\n            R[:, 0, self.frozen_ind] = self.clip", "violation", "FROZEN-VALUE"),
+        ("kernel transposed", PEF, "factor_graph = torch.tensor([[1, 0], [1, 1]], dtype=torch.float32)", "factor_graph = torch.tensor([[1, 1], [0, 1]], dtype=torch.float32)", "violation", "KERNEL"),
+        ("f2 without xor", SCF, "return torch.cat([torch.remainder(x1 + x2, 2), x2], dim=1)", "return torch.cat([x1, x2], dim=1)", "violation"),
+        ("min_sum max magnitude", "kaira/models/fec/utils.py", "return torch.sign(x) * torch.sign(y) * torch.min(torch.abs(x), torch.abs(y))", "return torch.sign(x) * torch.sign(y) * torch.max(torch.abs(x), torch.abs(y))", "violation", "SC-SHAPE"),
+        ("user mask count unchecked", PEF, "            if torch.sum(info_indices) != self.code_dimension:\n                raise ValueError(f\"info_indices must have exactly {self.code_dimension} True values, \" f\"got {torch.sum(info_indices)}\")\n", "", "violation", "INFO-SET"),
+        ("twin: bitnode commuted", SCF, "        return y2 + (1 - 2 * x) * y1", "        return (1 - 2 * x) * y1 + y2", "silent"),
     ],
 }
 
